@@ -61,6 +61,7 @@ func c03Run(c *hx.Ctx) {
 		n = 4000
 	}
 	jlsKernels(c, n)
+	jlsRunSegments(c, 2*n)
 	jlsGolomb(c, 5*n)
 
 	// boundary cases first: the design's witness and its relatives
@@ -130,6 +131,17 @@ func c03Run(c *hx.Ctx) {
 			}
 		}
 	}
+	// run-then-jump family (runs of every length x jump classes x RUNindex positions)
+	jlsRunJumpImages(r, c.Thorough(), func(int) []int { return []int{0} }, func(im jlsImage, _ int) {
+		if c03Check(c, im) {
+			if enc, oc := jlsEncLossless(im); oc == "ok" {
+				if _, st, err := c14Decode(enc); err == nil {
+					jlsRunCounters(c, st)
+				}
+			}
+		}
+	})
+	jlsRunCoverageNote(c)
 	// long statistics: N=64 resets, C saturation, run index 31
 	for _, p := range []int{8, 16, 12} {
 		c03Check(c, jlsGen(r, "constant", 256, 160, 1, p, 0))
